@@ -78,6 +78,18 @@ class HarnessError(Exception):
   pass
 
 
+def through_sut(e, markers=('/flax/', '/orbax/')):
+  """True when the traceback of `e` passes through the system under test (so the exception is the
+  system's behaviour, to be judged by an oracle) rather than being raised purely inside the harness."""
+  tb = e.__traceback__
+  while tb is not None:
+    fn = tb.tb_frame.f_code.co_filename
+    if any(m in fn for m in markers) and '/verif/' not in fn:
+      return True
+    tb = tb.tb_next
+  return False
+
+
 class Log:
   """Event log of one run.  Never holds addresses, ids, timestamps."""
 
@@ -227,6 +239,9 @@ def worker_main(argv):
   seen_nt = set()
   seen_sched = set()
   max_viol = 3
+  n_unknown = 0
+  known = load_known()
+  known_hits = {}
   t0 = time.time()
   idxs = range(w, nruns, nw)
   for n, i in enumerate(idxs):
@@ -271,8 +286,14 @@ def worker_main(argv):
     if res.violation:
       v = dict(res.violation)
       kind = v['kind']
+      sig0 = mod.signature(plan, v) if hasattr(mod, 'signature') else {}
+      f0 = match_known(prop, dict(kind=kind, signature=sig0), known)
+      if f0 is not None and f0['id'] in known_hits:
+        # a listed finding already minimised once in this worker: count it, do not shrink it again
+        known_hits[f0['id']] += 1
+        continue
       plan0 = getattr(res, 'replay_plan', None) or plan
-      small = shrink_plan(mod, plan0, kind, budget_s=float(os.environ.get('VERIF_SHRINK_S', '45')))
+      small = shrink_plan(mod, plan0, kind, budget_s=float(os.environ.get('VERIF_SHRINK_S', '45')) if f0 is None else 8.0)
       r2 = mod.execute(small)
       if not r2.violation or r2.violation['kind'] != kind:
         small = plan0
@@ -283,12 +304,18 @@ def worker_main(argv):
       small['property'] = prop
       sig = mod.signature(small, v) if hasattr(mod, 'signature') else {}
       agg['violations'].append(dict(index=i, run_seed=rs, kind=v['kind'], detail=v.get('detail', ''), plan=small, signature=sig, orig_ops=len(plan.get('ops', []))))
-      if len(agg['violations']) >= max_viol:
+      f1 = match_known(prop, dict(kind=v['kind'], signature=sig), known)
+      if f1 is not None:
+        known_hits[f1['id']] = known_hits.get(f1['id'], 0) + 1
+        continue
+      n_unknown += 1
+      if n_unknown >= max_viol:
         agg['stopped_after_violations'] = True
         break
     if hasattr(mod, 'between_runs'):
       mod.between_runs(n)
   agg['digests'] = sorted(seen_nt)
+  agg['known_hits'] = known_hits
   agg['sched'] = len(seen_sched)
   agg['sched_digests'] = sorted(seen_sched)[:200000]
   agg['wall_s'] = time.time() - t0
@@ -389,6 +416,8 @@ def merge(results):
       tot['per_index'][i] = d
     if r.get('deadline_hit'):
       tot['deadline_hit'] = True
+    for k, v in r.get('known_hits', {}).items():
+      tot.setdefault('known_hits', {})[k] = tot.setdefault('known_hits', {}).get(k, 0) + v
   for r in results:
     for s in r['samples']:
       if len(tot['samples']) < 3:
